@@ -868,3 +868,58 @@ Proof.
   rewrite Hm' by lia. rewrite Hm by lia.
   apply znth_app_l. lia.
 Qed.
+
+(* A write never touches an address outside the data region [0, cap): whatever lies beside the ring in the shared
+   mapping (its description header) is out of reach, for any state with a positive capacity and rp <= wp. *)
+Lemma zlen_zfirstn_le {A} k (l : list A) : zlen (zfirstn k l) <= Z.max 0 k.
+Proof. unfold zfirstn, zlen. rewrite firstn_length. lia. Qed.
+
+Theorem write_stays_in_region s d a :
+  0 < cap s -> rp s <= wp s -> (a < 0 \/ cap s <= a) -> mem (fst (write s d)) a = mem s a.
+Proof.
+  intros Hc Hr Ha. unfold write. cbv zeta. cbn [fst mem].
+  set (c := cap s) in *. set (w := wp s) in *. set (r := rp s) in *.
+  set (written := if zlen d >? c - (w - r + 1) then c - (w - r + 1) else zlen d).
+  assert (Hwr : written <= c - 1) by (unfold written; destruct (zlen d >? c - (w - r + 1)) eqn:E; lia).
+  pose proof (Z.mod_pos_bound w c Hc) as Hwm.
+  pose proof (Z.mod_pos_bound (w + written) c Hc) as Hwm2.
+  destruct ((w + written) / c >? w / c) eqn:Ewrap.
+  - pose proof (zlen_zfirstn_le (c - w mod c) d) as L1.
+    pose proof (zlen_zfirstn_le (written - (c - w mod c)) (zskipn (c - w mod c) d)) as L2.
+    rewrite upd_range_out by lia. rewrite upd_range_out by lia. reflexivity.
+  - pose proof (zlen_zfirstn_le ((w + written) mod c - w mod c) d) as L1.
+    rewrite upd_range_out by lia. reflexivity.
+Qed.
+
+(* A read looks only at addresses inside the data region [0, cap): the bytes it returns (and the state it leaves)
+   are the same for any two memories that agree on the region. *)
+Lemma in_zrange_nat a n x : In x (zrange_nat a n) -> a <= x < a + Z.of_nat n.
+Proof.
+  revert a; induction n as [|n IH]; intros a H; cbn [zrange_nat] in H; [contradiction|].
+  destruct H as [<-|H]; [lia|]. apply IH in H. lia.
+Qed.
+Lemma in_zrange a n x : In x (zrange a n) -> a <= x < a + Z.max 0 n.
+Proof. unfold zrange; intros H. apply in_zrange_nat in H. lia. Qed.
+
+Theorem read_looks_only_inside_region s m' size :
+  0 < cap s -> rp s <= wp s -> wp s - rp s <= cap s ->
+  (forall a, 0 <= a < cap s -> m' a = mem s a) ->
+  snd (read {| cap := cap s; wp := wp s; rp := rp s; mem := m' |} size) = snd (read s size).
+Proof.
+  intros Hc Hr Hroom Hag. unfold read. cbv zeta. cbn [cap wp rp mem].
+  set (c := cap s) in *. set (w := wp s) in *. set (r := rp s) in *.
+  set (n := if size >? w - r then w - r else size).
+  destruct (n <=? 0) eqn:En; [reflexivity|]. cbn [snd].
+  assert (Hn : 0 < n <= c) by (unfold n in *; destruct (size >? w - r) eqn:Es; lia).
+  pose proof (Z.mod_pos_bound r c Hc) as Hrm.
+  pose proof (Z.mod_pos_bound (r + n) c Hc) as Hrm2.
+  set (rawend := if (r + n) / c >? r / c then c else (r + n) mod c).
+  assert (Hre : rawend <= c) by (unfold rawend; destruct ((r + n) / c >? r / c); [apply Z.le_refl | apply Z.lt_le_incl, Hrm2]).
+  assert (E1 : map m' (zrange (r mod c) (rawend - r mod c)) = map (mem s) (zrange (r mod c) (rawend - r mod c))).
+  { apply map_ext_in. intros x Hx. apply in_zrange in Hx. apply Hag. lia. }
+  rewrite E1.
+  set (d1 := map (mem s) (zrange (r mod c) (rawend - r mod c))).
+  destruct (((r + n) / c >? r / c) && (n >? zlen d1)) eqn:E2; [|reflexivity].
+  f_equal. apply map_ext_in. intros x Hx. apply in_zrange in Hx. apply Hag.
+  pose proof (zlen_nonneg d1). lia.
+Qed.
